@@ -560,3 +560,16 @@ Section History.
       end
     end.
 End History.
+
+(* ---------- time.Now().UTC().Format(time.RFC3339) on a broken-down UTC time ---------- *)
+Definition dig2 (n : N) : str := [48 + n / 10; 48 + n mod 10].
+Definition dig4 (n : N) : str := [48 + n / 1000; 48 + (n / 100) mod 10; 48 + (n / 10) mod 10; 48 + n mod 10].
+
+(* "2006-01-02T15:04:05Z07:00" with offset 0 *)
+Definition format_rfc3339_utc (y mo d h mi s : N) : str :=
+  dig4 y ++ [45] ++ dig2 mo ++ [45] ++ dig2 d ++ [84] ++ dig2 h ++ [58] ++ dig2 mi ++ [58] ++ dig2 s ++ [90].
+
+(* what the runtime's clock guarantees of a UTC time before the year 10000 *)
+Definition civil_ok (y mo d h mi s : N) : bool :=
+  (y <=? 9999) && (1 <=? mo) && (mo <=? 12) && (1 <=? d) && (d <=? days_in mo y) &&
+  (h <=? 23) && (mi <=? 59) && (s <=? 59).
